@@ -181,6 +181,9 @@ impl Case for C04Case {
                         v.discarded = Some("probe exceeded the instruction budget on both runtimes".into());
                     }
                 } else {
+                    if self.probe.starts_with("PRINT FN") {
+                        w.stats.bump("c04.fn_probe_compared");
+                    }
                     w.stats.bump(if self.probe.starts_with("RUN") {
                         "c04.run_compared"
                     } else {
@@ -317,6 +320,8 @@ fn probe_kind(p: &str) -> &'static str {
         "CONT"
     } else if p.starts_with("RETURN") {
         "RETURN"
+    } else if p.starts_with("PRINT FN") {
+        "FN"
     } else {
         "NEXT"
     }
@@ -468,8 +473,22 @@ impl Property for C04 {
             }
         }
         let nums: Vec<u16> = prog.lines.iter().map(|l| l.num).collect();
-        let probe = match rng.below(10) {
-            0..=3 => "RUN".to_string(),
+        // a user function the (earlier) run defined, called from direct mode
+        let mut fn_call: Option<String> = None;
+        for l in &prog.lines {
+            crate::gen::walk_stmts(&l.stmts, &mut |s| {
+                if let Stmt::DefFn { name, params, .. } = s {
+                    let args: Vec<String> = params
+                        .iter()
+                        .map(|v| if v.sfx == Some('$') { "\"x\"".to_string() } else { "1".to_string() })
+                        .collect();
+                    fn_call = Some(format!("PRINT FN{}({})", name.text(), args.join(",")));
+                }
+            });
+        }
+        let probe = match rng.below(11) {
+            10 if fn_call.is_some() => fn_call.unwrap(),
+            0..=3 | 10 => "RUN".to_string(),
             4..=5 => format!(
                 "RUN {}",
                 if nums.is_empty() {
@@ -510,14 +529,13 @@ impl Property for C04 {
         }
     }
     fn rule(&self) -> &'static str {
-        "one evaluation = a generated base program, a history of 1-8 operations (insert/replace line, bare number of a present/absent line, DELETE in four range forms, RENUM with valid and invalid triples, NEW, LOAD from the SimDisk, harmless direct statements, a RUN stopped by Ctrl-C at a seeded instruction / STOP / END / error) and a final probe (RUN, RUN n, CONT, RETURN, NEXT, NEXT v) executed on the history-laden runtime and on a fresh twin fed get_listing() text, entropy aligned; distinct = distinct API/event log fingerprint; non-trivial = at least one effective edit and more than 10 VM instructions"
+        "one evaluation = a generated base program, a history of 1-8 operations (insert/replace line, bare number of a present/absent line, DELETE in four range forms, RENUM with valid and invalid triples, NEW, LOAD from the SimDisk, harmless direct statements, a RUN stopped by Ctrl-C at a seeded instruction / STOP / END / error) and a final probe (RUN, RUN n, CONT, RETURN, NEXT, NEXT v, a direct call of a user function the program defines) executed on the history-laden runtime and on a fresh twin fed get_listing() text, entropy aligned; distinct = distinct API/event log fingerprint; non-trivial = at least one effective edit and more than 10 VM instructions"
     }
     fn assumptions(&self) -> Vec<&'static str> {
         vec![
             "CONT / RETURN / NEXT typed when no edit happened since the last stop are legitimate resumptions and are not judged",
             "a case whose edited listing is not a fixed point of typing it (C05 territory) is discarded",
             "TRON is kept off (the manual lets tracing persist across RUN)",
-            "user functions defined by a previous run and called after an edit are not exercised (grey zone, appendix A)",
         ]
     }
     fn required_probes(&self) -> Vec<&'static str> {
@@ -529,6 +547,7 @@ impl Property for C04 {
             "c04.stopped_with_gosub_frames",
             "c04.stopped_with_for_frames",
             "c04.harmless_direct_statement",
+            "c04.fn_probe_compared",
         ]
     }
 }
